@@ -4,6 +4,7 @@
 mod out;
 mod prng;
 mod ints;
+mod cond;
 
 fn main() {
     let args: Vec<String> = std::env::args().collect();
@@ -22,6 +23,9 @@ fn main() {
     let mut o = out::Out::new(dir);
     match prop {
         "C11" => ints::run(&mut o, seed, thorough, replay),
+        "C01" => cond::run(&mut o, seed, thorough, replay),
+        "C02" => cond::run_c02(&mut o, seed, thorough, replay),
+        "C04" => cond::run_c04(&mut o, seed, thorough, replay),
         _ => { eprintln!("unknown property {prop}"); std::process::exit(2); }
     }
     let n = o.finish();
